@@ -271,8 +271,37 @@ func (pc *proofChecker) checkNode(n *provenance.ProofNode, path map[string]bool,
 		if rule.Head.Predicate != n.Fact.Predicate {
 			return fmt.Errorf("rule %v does not define %v", rule, n.Fact.Predicate)
 		}
+		// closeEq extends the (partial) reported bindings by the rule's binding equalities: a variable that only
+		// an equality defines (N5 = fn:plus(N4,N1)) is not among the reported bindings, but a function expression
+		// in a later atom may use it
+		closeEq := func() {
+			for changed := true; changed; {
+				changed = false
+				for _, lit := range rule.Premises {
+					eq, ok := lit.(ast.Eq)
+					if !ok {
+						continue
+					}
+					l, okL := pc.evalClosed(eq.Left, s)
+					r, okR := pc.evalClosed(eq.Right, s)
+					if okL && !okR {
+						if v, ok := eq.Right.(ast.Variable); ok && v.Symbol != "_" {
+							s[v.Symbol] = l
+							changed = true
+						}
+					}
+					if okR && !okL {
+						if v, ok := eq.Left.(ast.Variable); ok && v.Symbol != "_" {
+							s[v.Symbol] = r
+							changed = true
+						}
+					}
+				}
+			}
+		}
 		pi := 0
 		for _, lit := range rule.Premises {
+			closeEq()
 			switch l := lit.(type) {
 			case ast.Atom:
 				if l.Predicate.IsBuiltin() {
@@ -345,29 +374,7 @@ func (pc *proofChecker) checkNode(n *provenance.ProofNode, path map[string]bool,
 			return fmt.Errorf("proof of %v by %v has %d premises, the rule has %d positive/negated literals", n.Fact, rule, len(n.Premises), pi)
 		}
 		// binding equalities, then tests
-		for changed := true; changed; {
-			changed = false
-			for _, lit := range rule.Premises {
-				eq, ok := lit.(ast.Eq)
-				if !ok {
-					continue
-				}
-				l, okL := pc.evalClosed(eq.Left, s)
-				r, okR := pc.evalClosed(eq.Right, s)
-				if okL && !okR {
-					if v, ok := eq.Right.(ast.Variable); ok && v.Symbol != "_" {
-						s[v.Symbol] = l
-						changed = true
-					}
-				}
-				if okR && !okL {
-					if v, ok := eq.Left.(ast.Variable); ok && v.Symbol != "_" {
-						s[v.Symbol] = r
-						changed = true
-					}
-				}
-			}
-		}
+		closeEq()
 		for _, lit := range rule.Premises {
 			switch l := lit.(type) {
 			case ast.Eq:
